@@ -86,7 +86,7 @@ func compareLoops(wops, rops []cop, wfn *codecFn) []string {
 					okR = false
 				}
 				if !okR {
-					bad = append(bad, fmt.Sprintf("reader loop bound %q is not the count read before it", ro.Bound))
+					bad = append(bad, fmt.Sprintf("reader loop bound %q (%s) is not the count read before it (%s %q %s)", ro.Bound, ro.Var, rops[i-1].Kind, rops[i-1].Arg, rops[i-1].Var))
 				}
 			} else {
 				// implicit bound: both sides must use the same quantity, or the writer validates equality
@@ -156,7 +156,7 @@ func (c *Check) compareCodecPair(rule string, rel string, pr codecPair) {
 }
 
 func runC15(c *Check) {
-	p := c.P.ByRel["client"]
+	p := c.P.CodecPkg("client")
 	if p == nil {
 		c.Undecided("R0", "anchor:pkg/client", token.NoPos, "package not loaded")
 		return
@@ -368,6 +368,10 @@ func (c *Check) ruleReadErrorsChecked(rule string, rels []string, min int) {
 			if _, isB := call.Call.Value.(*ssa.Builtin); isB {
 				continue
 			}
+			if nm := calleeName(s.CC); strings.HasSuffix(nm, "pkg/errors.Wrap") || strings.HasSuffix(nm, "pkg/errors.Wrapf") || strings.HasSuffix(nm, "pkg/errors.New") ||
+				strings.HasSuffix(nm, "pkg/errors.Errorf") || strings.HasSuffix(nm, "pkg/errors.WithStack") || strings.HasSuffix(nm, "pkg/errors.WithMessage") || nm == "errors.New" || nm == "fmt.Errorf" {
+				continue // builds an error value, reads nothing
+			}
 			n++
 			key := fmt.Sprintf("%s#error-of-%s-checked", c.P.Key(fn), calleeObjName(s.CC))
 			// find the If testing this call's error
@@ -401,17 +405,18 @@ func (c *Check) ruleReadErrorsChecked(rule string, rels []string, min int) {
 			// failing edge must lead only to error returns (or leave a decoding loop)
 			fail := test.Block().Succs[br]
 			leads := true
-			seen := map[*ssa.BasicBlock]bool{}
-			q := []*ssa.BasicBlock{fail}
+			seen := map[walkNode]bool{}
+			q := []walkNode{mkNode(test.Block(), fail)}
 			steps := 0
-			for len(q) > 0 && steps < 50 {
-				x := q[0]
+			for len(q) > 0 && steps < 80 {
+				nd := q[0]
 				q = q[1:]
-				if seen[x] {
+				if seen[nd] {
 					continue
 				}
-				seen[x] = true
+				seen[nd] = true
 				steps++
+				x := nd.b
 				if isExitBlock(x) {
 					if !isErrorReturnBlock(x) && !returnsErrValue(x, call) {
 						leads = false
@@ -427,7 +432,11 @@ func (c *Check) ruleReadErrorsChecked(rule string, rels []string, min int) {
 						}
 					}
 				}
-				q = append(q, x.Succs...)
+				for i := range x.Succs {
+					if nd.feasibleEdge(i) {
+						q = append(q, nd.step(i))
+					}
+				}
 			}
 			c.Decide(ok && leads, rule, key, s.Pos(), "error-check dominance", nil,
 				"error tested immediately; the failing edge stops decoding", "after this read fails decoding continues (or the test is not immediate): a strict prefix of an encoding could decode to a message")
